@@ -7,7 +7,10 @@ if ! git diff --quiet; then echo "repo dirty"; exit 2; fi
 if ! git apply "$patch" 2>/dev/null && ! git apply --3way "$patch"; then echo "patch does not apply"; git reset -q --hard HEAD; exit 2; fi
 trap 'cd /repo && git reset -q --hard HEAD && git clean -fdq -- . >/dev/null 2>&1' EXIT
 for p in "$@"; do
+  cp /verif/evidence/$p.json /tmp/seedtest-evidence-$p.json 2>/dev/null
   out=$(cd /verif && ./check "$p" ${TIER:-quick} 2>&1)
   rc=$?
+  # the evidence file describes the unchanged tree: put it back
+  cp /tmp/seedtest-evidence-$p.json /verif/evidence/$p.json 2>/dev/null; rm -f /tmp/seedtest-evidence-$p.json
   echo "$p rc=$rc $(echo "$out" | grep -E 'VIOLATION|KNOWN' | head -2 | tr '\n' ' ') | $(echo "$out" | tail -1 | cut -c1-150)"
 done
